@@ -401,6 +401,43 @@ def o193(ctx):
             ctx.finding(q, n, f"trace_chains writes the distance field of a chain row a second time (`{src(n)[:70]}`): the field holds the distance of "
                         "the link to the next particle of the chain; after the chain has been put in front of / behind another one by the connection "
                         "step its last row does have a successor, and the recorded distance of that link is lost", n, m)
+    # (g) the window is the caller's: the threshold parameters reach the searches as given (a conversion of the same value apart)
+    own_nodes = [n for n in ast.walk(fn)]
+    for p_ in ("max_distance", "min_distance"):
+        if p_ not in [a_.arg for a_ in fn.args.args + fn.args.kwonlyargs]:
+            continue
+        for n in own_nodes:
+            tg = n.targets if isinstance(n, ast.Assign) else [n.target] if isinstance(n, (ast.AugAssign, ast.AnnAssign)) else []
+            if not any(isinstance(x, ast.Name) and x.id == p_ for t_ in tg for x in ast.walk(t_) if isinstance(x.ctx if hasattr(x, "ctx") else None, ast.Store)):
+                continue
+            ctx.count(1)
+            v_ = getattr(n, "value", None)
+            conv = isinstance(n, ast.Assign) and isinstance(v_, ast.Call) and len(v_.args) == 1 and not v_.keywords and isinstance(v_.args[0], ast.Name) \
+                and v_.args[0].id == p_ and (ctx.prog.resolve(m, v_.func) or src(v_.func)) in ("builtins.float", "float", "numpy.float64", "numpy.float32", "numpy.double")
+            if not conv:
+                ctx.finding(q, n, f"trace_chains replaces the caller's `{p_}` (`{src(n)[:80]}`): two particles may be linked only if their sites are "
+                            "within (min_distance, max_distance] as the caller gave them; an empty window links nothing", n, m)
+    # (h) rows enter the result through the tomogram loop only (where object number, order number and link distance are written): the result
+    #     table is started empty, extended once per tomogram and wrapped after the loop
+    res_names = {t_.id for c_ in cat if isinstance(c_, ast.Assign) for t_ in c_.targets if isinstance(t_, ast.Name)}
+    for rn in sorted(res_names):
+        for n in fn.body:
+            if n is fl:
+                break
+            for x in ast.walk(n):
+                if isinstance(x, ast.Assign) and any(isinstance(t_, ast.Name) and t_.id == rn for t_ in x.targets):
+                    ctx.count(1)
+                    if "create_empty_motl_df" in src(x.value) or src(x.value) in ("pd.DataFrame()", "pandas.DataFrame()"):
+                        continue
+                    fields = [f_ for f_ in ("store_idx1", "store_idx2", "store_dist")
+                              if not any(isinstance(y, ast.Assign) and any(isinstance(t_, ast.Subscript) and f_ in src(t_.slice) and src(t_.value) == rn for t_ in y.targets)
+                                         for z in fn.body[:fn.body.index(fl)] for y in ast.walk(z))]
+                    if fields:
+                        ctx.finding(q, x, f"rows are put into the result before the tomogram loop (`{src(x)[:80]}`) without writing {', '.join(fields)}: every "
+                                    "particle of the result carries the object number of its chain, its order number 1..k within the chain and the distance "
+                                    "of its link; a shortcut has to write all three", x, m)
+                    else:
+                        raise Unsupported("rows are put into the result outside the tomogram loop", x)
     # (f) connection of a finished chain to existing ones: the chain's *first* particle (entry site) is looked up among the exit sites,
     #     the chain's *last* particle (exit site) among the entry sites
     back = [c_ for c_ in calls if isinstance(A(c_)[-1], ast.Constant) and A(c_)[-1].value is False]
@@ -646,4 +683,4 @@ def _obligations():
 
 
 def obligations():
-    return _obligations() + [constructors_obligation(['cryomotl.Motl', 'cryomotl.EmMotl']), labels_obligation("C19"), selectors_obligation("C19"), effects_obligation("C19"), plumbing_obligation("C19"), overrides_obligation("C19"), options_obligation("C19")]
+    return _obligations() + [constructors_obligation(['cryomotl.Motl', 'cryomotl.EmMotl']), labels_obligation("C19"), selectors_obligation("C19"), effects_obligation("C19"), plumbing_obligation("C19"), overrides_obligation("C19"), options_obligation("C19"), handlers_obligation("C19")]
